@@ -282,7 +282,7 @@ async fn send_fragmented(
     true
 }
 
-async fn body(peer: &mut Peer, net: &crate::net::NetHandle, ps: &mut PeerSession, links: &mut [Link], illegal: bool) {
+async fn body(peer: &mut Peer, net: &crate::net::NetHandle, ps: &mut PeerSession, links: &mut [Link], illegal: bool, tight_credit: bool) {
     let n = 2 + choice(6) as usize;
     let mut uid = 20_000u64;
     let check_each = choice(2) == 1;
@@ -300,6 +300,11 @@ async fn body(peer: &mut Peer, net: &crate::net::NetHandle, ps: &mut PeerSession
         if sim::has_violation() {
             return;
         }
+        // with a credit of one or two the next delivery has to wait until the application has
+        // disposed of this one and the link has topped the credit up again
+        if tight_credit && !quiesce(peer, net).await {
+            return;
+        }
     }
 }
 
@@ -309,9 +314,15 @@ pub async fn run_client() {
     let accept = choice(2) == 1;
     let ccfg = EndpointCfg::default_cfg();
     let (nab, nba, nd) = world::draw_net(true);
-    sim::set_config(format!("side=client links={} accept={} illegal-variant={} {}", nlinks, accept, illegal, nd));
+    // what the scripted sender says about the frames it is prepared to *receive*; what it sends is
+    // bound by the endpoint's own max-frame-size (65536) only, and its frames go up to ~1.3 KiB
+    let peer_mfs = pick(&[65536u32, 512, 1024]);
+    // a delivery takes one credit however many frames carry it: with a credit of 1 (topped up
+    // after every disposal) a fragmented delivery must get through like a single-frame one
+    let credit = if accept { pick(&[100u32, 100, 1, 2]) } else { 100 };
+    sim::set_config(format!("side=client links={} accept={} illegal-variant={} peer-max-frame-size={} credit=Auto({}) {}", nlinks, accept, illegal, peer_mfs, credit, nd));
     sim::mark_nontrivial();
-    let cvp = match peer::client_vs_peer(&ccfg, peer::open("peer", Some(65536), Some(255), None), nab, nba, Models::none()).await {
+    let cvp = match peer::client_vs_peer(&ccfg, peer::open("peer", Some(peer_mfs), Some(255), None), nab, nba, Models::none()).await {
         Some(x) => x,
         None => return,
     };
@@ -341,7 +352,7 @@ pub async fn run_client() {
             Receiver::builder()
                 .name(name.clone())
                 .source("q")
-                .credit_mode(CreditMode::Auto(100))
+                .credit_mode(CreditMode::Auto(credit))
                 .attach(&mut session),
         );
         let peer_att = async {
@@ -364,7 +375,7 @@ pub async fn run_client() {
             None => return,
         }
     }
-    body(&mut peer, &net, &mut ps, &mut links, illegal).await;
+    body(&mut peer, &net, &mut ps, &mut links, illegal, credit < 100).await;
     if sim::has_violation() {
         return;
     }
@@ -381,9 +392,10 @@ pub async fn run_listener() {
     let accept = choice(2) == 1;
     let lcfg = EndpointCfg::default_cfg();
     let (nab, nba, nd) = world::draw_net(true);
-    sim::set_config(format!("side=listener links={} accept={} illegal-variant={} {}", nlinks, accept, illegal, nd));
+    let peer_mfs = pick(&[65536u32, 512, 1024]);
+    sim::set_config(format!("side=listener links={} accept={} illegal-variant={} peer-max-frame-size={} {}", nlinks, accept, illegal, peer_mfs, nd));
     sim::mark_nontrivial();
-    let pvl = match peer::peer_vs_listener(&lcfg, peer::open("peer", Some(65536), Some(255), None), nab, nba, Models::none()).await {
+    let pvl = match peer::peer_vs_listener(&lcfg, peer::open("peer", Some(peer_mfs), Some(255), None), nab, nba, Models::none()).await {
         Some(x) => x,
         None => return,
     };
@@ -458,7 +470,7 @@ pub async fn run_listener() {
     if !quiesce(&mut peer, &net).await {
         return;
     }
-    body(&mut peer, &net, &mut ps, &mut links, illegal).await;
+    body(&mut peer, &net, &mut ps, &mut links, illegal, false).await;
     if sim::has_violation() {
         return;
     }
